@@ -644,13 +644,40 @@ Fixpoint run_hist (ops : list op) (h : heap) : option heap :=
     end
   end.
 
+(* ---------- to_outgroup_position after repair 1c81f78b: the outgroup is moved to the first position of its
+   parent's child list BEFORE the tree is re-seeded at that parent, so that the unifurcation suppression
+   inside reseed_at runs on the final structure
+       p = outgroup_node._parent_node; assert p is not None
+       p.remove_child(outgroup_node); p.insert_child(0, outgroup_node)
+       self.reseed_at(p, update_bipartitions, suppress_unifurcations, collapse_unrooted_basal_bifurcation=False)
+   (the old form, to_outgroup_position above, stays: its refutations are theorems) ---------- *)
+Definition to_outgroup_position_r (og : Z) (ub su : bool) (h : heap) : hres :=
+  match parent h og with
+  | None => HErr AssertErr h
+  | Some p =>
+    hdo h1 <- remove_child_plain p og h ;;
+    reseed_at p ub false su (insert_child p 0 og h1)
+  end.
+
+Definition randomly_reorient_r (pick : nat) (perms : list (list nat)) (ub : bool) (h : heap) : hres :=
+  with_sub h (seed h) (fun t =>
+    match nth_error (pre_ids t) pick with
+    | None => HFuel
+    | Some nd =>
+      hdo h1 <- (if is_internal h nd then reseed_at nd ub true true h
+                 else to_outgroup_position_r nd ub true h) ;;
+      randomly_rotate perms h1
+    end).
+
 (* ---------- variants of repaired sites (decided at run time by probing the library) ----------
    v_seed_guard       : prune_leaves_without_taxa / prune_taxa raise SeedNodeDeletionException
                         (OtherErr) instead of AttributeError on None.remove_child when the node to
                         remove is the seed (same point, same state: an error relabelling)
    v_prune_nodes_tail : prune_nodes(prune_leaves_without_taxa=False) applies suppress_unifurcations and
-                        update_bipartitions(suppress_unifurcations=su) instead of ignoring them *)
-Record variants := mkVariants { v_seed_guard : bool; v_prune_nodes_tail : bool }.
+                        update_bipartitions(suppress_unifurcations=su) instead of ignoring them
+   v_outgroup_first   : to_outgroup_position (also inside randomly_reorient) moves the outgroup to the first
+                        position before re-seeding (to_outgroup_position_r) instead of after *)
+Record variants := mkVariants { v_seed_guard : bool; v_prune_nodes_tail : bool; v_outgroup_first : bool }.
 
 Definition relabel_err (from to : err) (r : hres) : hres :=
   match r with
@@ -667,6 +694,9 @@ Definition run_op_v (v : variants) (o : op) (h : heap) : hres :=
     if v_prune_nodes_tail v && negb plwt
     then hbind r (fun h1 => hbind (if su then suppress_unifurcations h1 else HOk h1) (ub_tail_su ub su))
     else r
+  | OToOutgroup og ub su => if v_outgroup_first v then to_outgroup_position_r og ub su h else run_op o h
+  | ORandomlyReorient pick perms ub =>
+    if v_outgroup_first v then randomly_reorient_r pick perms ub h else run_op o h
   | _ => run_op o h
   end.
 
